@@ -187,6 +187,13 @@ INVARIANT Exclusive
             o = core.outcome(lambda: utils.random_stager_uri(x64=x64, length=length))
             ev.append({"op": "gen", "x64": x64, "length": length, "r": o[0] if o[0] == "ok" else o[1], "uri": L(o[1].encode()) if o[0] == "ok" else [47]})
         ctx.evaluations += 6
+    # histories with one key: a short call followed by longer ones across the 8192 boundary (state carried between calls)
+    for key in (b".", b"\x69", b"\x01\x02"):
+        for size in (10, 8191, 8192, 8193, 12289, 3, 20000):
+            d = bytes((i * 7 + size) % 256 for i in range(size))
+            o = core.outcome(utils.xor, d, key)
+            ev.append({"op": "xor", "d": L(d), "k": L(key), "r": o[0] if o[0] == "ok" else o[1], "out": L(o[1]) if o[0] == "ok" else []})
+            ctx.evaluations += 1
     # documented argument errors of the generator
     for kw in (dict(x64=True, length=5), dict(length=2), dict(x64=True, length=3)):
         o = core.outcome(lambda: utils.random_stager_uri(**kw))
